@@ -3,7 +3,7 @@ PROPS["C04"] = dict(
     technique="schedule-controlled PBT in a testing/synctest bubble with gated storage calls; oracles: exact quiescence-with-work-remaining detector (lost wake-up), per-cancel verdict, residue checks, shutdown verdicts",
     rule="case = as C01 without faults, plus cancel moves (before start, in the local wait, at the gate before Create / before the wait, inside the "
          "storage wait) and Shutdown(provider) moves; a third of the cancellable attempts use a WithCancelCause context cancelled with a cause of the harness (the attempt must still return ctx.Err(), i.e. context.Canceled), and a third park at the scheduler inside the first ctx.Err() call "
-         "the lock code makes after the cancellation (a schedule point between an attempt's decision to give up and its clean-up: other workers unlock, start and get released meanwhile); the key space is spelled with various prefixes and lock names; "
+         "the lock code makes after the cancellation (a schedule point between an attempt's decision to give up and its clean-up: other workers unlock, start and get released meanwhile); a quarter park at the scheduler inside the first ctx.Done() call of the lock code (the entry of its local wait): a Shutdown that returns while an attempt sits there must make it fail; a quarter of the releases of a Create/Delete apply the call and park its reply; the key space is spelled with various prefixes and lock names; "
          "after the drawn decisions the scheduler drains (release / start / unlock until no move is "
          "enabled). Checked: after a cancel and the release of the attempt's own pending call the attempt has returned the context's error and "
          "holds nothing; at the end of the drain nobody is left inside a call (otherwise: lost wake-up), no lock record and no waiter-table entry "
